@@ -983,3 +983,128 @@ func c07r7(c *Ctx, r *Report) {
 	r.check(esc == nil, fmt.Sprintf("%s:output relay goroutine is joined", relName(rp)), relay.Pos(), rp,
 		"the successful return after cmd.Run waits for the relay", fmt.Sprintf("the return at %s is reached after cmd.Run without waiting for the goroutine that copies the popup's output: the process exits with output still in the FIFO", where))
 }
+
+// c08r15: the terminal posts one searchRequest per loop iteration into the coordinator's mailbox slot
+// EvtSearchNew. The slot holds one value, and three fields of the request are increments that exist only in
+// the iteration that produced them (denylist: the items excluded in this iteration; command: the reload
+// asked for; nth: the new field selection) plus the `changed` flag. Overwriting a request the coordinator has
+// not taken yet loses them for good (D30: EventBox.Set overwrote; while input is loading the coordinator
+// sleeps up to 100 ms per round, so an exclude, a reload or a change-nth followed within that time by any
+// other request never took effect). The post therefore has to be a read-modify-write of the slot that folds
+// the pending request's increments into the new one.
+func c08r15(c *Ctx, r *Report) {
+	l := c.L
+	r.rule("C08-R15", "D (read-modify-write of the mailbox slot) + E (field census)", "P1",
+		"no searchRequest is handed to the overwriting EventBox.Set; every post goes through EventBox.Update with a callback whose result depends on the pending value it is given; and the function that folds a pending request into a new one reads the pending request's changed, nth, command and denylist fields",
+		"request coalescing is observable: an excluded item stays listed, a reload never happens, a change-nth is ignored, when another request follows before the coordinator wakes up")
+	set := l.Fn("util", "(*EventBox).Set")
+	upd := l.Fn("util", "(*EventBox).Update")
+	if set == nil {
+		r.unest("anchors", token.NoPos, nil, "anchor EventBox.Set", "cannot resolve")
+		return
+	}
+	isReq := func(v ssa.Value) bool {
+		mi, ok := v.(*ssa.MakeInterface)
+		if !ok {
+			return false
+		}
+		n, ok := mi.X.Type().(*types.Named)
+		return ok && n.Obj().Name() == "searchRequest"
+	}
+	nPost := 0
+	var fold *ssa.Function
+	foldArg := 0
+	foldWanted := false
+	for _, fn := range l.AllFuncs() {
+		if fn.Blocks == nil || fn.Pkg == nil || !isModulePkg(fn.Pkg.Pkg) {
+			continue
+		}
+		eachInstr(fn, func(in ssa.Instruction) {
+			call, ok := in.(*ssa.Call)
+			if !ok {
+				return
+			}
+			switch {
+			case callIs(call.Common(), set) && len(call.Call.Args) == 3 && isReq(call.Call.Args[2]):
+				nPost++
+				r.bad(fmt.Sprintf("%s:post of a searchRequest", relName(rootFn(fn))), call.Pos(), fn, "posted through the merging primitive",
+					"a searchRequest is posted with EventBox.Set, which overwrites a request the coordinator has not taken yet: its denylist / reload command / nth are lost")
+			case upd != nil && callIs(call.Common(), upd) && len(call.Call.Args) == 3:
+				mc, ok := call.Call.Args[2].(*ssa.MakeClosure)
+				if !ok {
+					return
+				}
+				cb := mc.Fn.(*ssa.Function)
+				posts := false
+				uses := false
+				eachInstr(cb, func(i2 ssa.Instruction) {
+					ret, ok := i2.(*ssa.Return)
+					if !ok || len(ret.Results) != 1 {
+						return
+					}
+					rv := retResult(ret, 0)
+					if isReq(rv) {
+						posts = true
+					}
+					for w := range backwardSlice(rv, func(*ssa.CallCommon) bool { return true }, nil) {
+						if w == ssa.Value(cb.Params[0]) {
+							uses = true
+						}
+					}
+				})
+				if !posts {
+					return
+				}
+				nPost++
+				foldWanted = true
+				eachInstr(cb, func(i2 ssa.Instruction) {
+					c2, ok := i2.(*ssa.Call)
+					if !ok || c2.Common().StaticCallee() == nil || c2.Common().StaticCallee().Pkg == nil || !isModulePkg(c2.Common().StaticCallee().Pkg.Pkg) {
+						return
+					}
+					for ai, a := range c2.Call.Args {
+						n, isN := a.Type().(*types.Named)
+						if !isN || n.Obj().Name() != "searchRequest" {
+							continue
+						}
+						for w := range backwardSlice(a, nil, nil) {
+							if w == ssa.Value(cb.Params[0]) {
+								fold, foldArg = c2.Common().StaticCallee(), ai
+							}
+						}
+					}
+				})
+				r.check(uses, fmt.Sprintf("%s:post of a searchRequest", relName(rootFn(fn))), call.Pos(), fn, "the posted value is computed from the pending one",
+					"the callback ignores the pending request: it is overwritten as with Set")
+			}
+		})
+	}
+	r.floor("posts of a searchRequest", nPost, 1)
+	// the fold reads every increment of the pending request; the fold is the module function the callback
+	// hands the pending request to
+	if fold == nil {
+		if nPost > 0 && foldWanted {
+			r.unest("fold", token.NoPos, nil, "the function that folds a pending searchRequest into a new one", "the callback does not pass the pending request to a function of the module")
+		}
+		return
+	}
+	merge := fold
+	read := map[string]bool{}
+	pending := merge.Params[foldArg]
+	eachInstr(merge, func(in ssa.Instruction) {
+		switch x := in.(type) {
+		case *ssa.Field:
+			if x.X == ssa.Value(pending) {
+				read[x.X.Type().Underlying().(*types.Struct).Field(x.Field).Name()] = true
+			}
+		case *ssa.FieldAddr:
+			// the parameter spilled to a local
+			if al, ok := x.X.(*ssa.Alloc); ok && al.Comment == pending.Name() {
+				read[deref(x.X.Type()).Underlying().(*types.Struct).Field(x.Field).Name()] = true
+			}
+		}
+	})
+	for _, f := range []string{"changed", "nth", "command", "denylist"} {
+		r.check(read[f], fmt.Sprintf("%s:pending.%s is folded in", relName(merge), f), merge.Pos(), merge, "the pending request's "+f+" is read", "the pending request's "+f+" is dropped when a newer request replaces it")
+	}
+}
